@@ -10,7 +10,7 @@
 EXTENDS Naturals, Sequences, FiniteSets, TLC
 CONSTANTS Key, Val, KeyLen, ValLen,   \* abstract keys / values and their byte lengths
           Handle,                      \* handle objects
-          Hdr, NoHdr,                  \* header choices (h1,h2,b0) and "no file"
+          Hdr, NoHdr, HdrLen,          \* header choices (h1,h2,b0), "no file", and len(h2)+len(b0) per choice
           MaxRecs,                     \* bound on records (state constraint lives in the action guard)
           Deviations                   \* named departures from the required behaviour (non-vacuity / findings)
 VARIABLES file,   \* [exists, hdr, recs : Seq([k,v])]
@@ -71,6 +71,11 @@ Close(h) ==
   /\ hs' = [hs EXCEPT ![h].mode = "closed"]
   /\ UNCHANGED file /\ Note([act |-> "close", h |-> h], "ok")
 
+(* pickle.loads(pickle.dumps(h)) of a closed handle: the cached table of contents travels along *)
+Pickle(h) ==
+  /\ hs[h].mode = "closed"
+  /\ UNCHANGED sv /\ Note([act |-> "pickle", h |-> h], "ok")
+
 Put(h, k, v) ==
   LET a == [act |-> "put", h |-> h, k |-> k, v |-> v] IN
   /\ hs[h].mode # "none"
@@ -95,7 +100,7 @@ Get(h, k) ==
 Next == \E h \in Handle :
           \/ \E hd \in Hdr : NewX(h, hd)
           \/ \E m \in {"r", "a"} : New(h, m) \/ Reopen(h, m)
-          \/ Close(h)
+          \/ Close(h) \/ Pickle(h)
           \/ \E k \in Key : Get(h, k) \/ \E v \in Val : Put(h, k, v)
 
 Spec == Init /\ [][Next]_vars
@@ -109,6 +114,11 @@ HObs(h) == [mode |-> hs[h].mode, keys |-> hs[h].toc,
                        THEN [k \in hs[h].toc \cap KeysOf(file.recs) |-> ValueOf(file.recs, k)] ELSE <<>>]
 Obs == [exists |-> file.exists, hdr |-> file.hdr, recs |-> {<<file.recs[i].k, file.recs[i].v>> : i \in 1..Len(file.recs)},
         h |-> [h \in Handle |-> HObs(h)]]
+
+(* byte size of the file (header struct 32 bytes, block header 5 bytes) *)
+RECURSIVE RecBytes(_)
+RecBytes(rs) == IF rs = <<>> THEN 0 ELSE 5 + KeyLen[Head(rs).k] + ValLen[Head(rs).v] + RecBytes(Tail(rs))
+Size == IF file.exists THEN 32 + HdrLen[file.hdr] + RecBytes(file.recs) ELSE 0
 
 (* ----- properties (clauses of C02 on the raw layer) ----------------------- *)
 TypeOK == /\ file.exists \in BOOLEAN
